@@ -32,6 +32,11 @@ int      vp_record_bytes = 1;
 int      vp_in_tick = 0;
 int      vp_thread_mode = 0;   /* several receive threads: no shared recorder/ledger/clock in the port */
 
+/* called on entry to every port function that reaches the environment: lets a driver suspend the calling
+ * receive thread there (forced preemption) */
+void (*vp_portcall_hook)(void) = NULL;
+#define VP_HOOK() do { if (vp_portcall_hook) vp_portcall_hook(); } while (0)
+
 /* default for drivers that do not schedule threads */
 __attribute__((weak)) void lltd_verif_yield(const char *point, void *iface_ctx) { (void)point; (void)iface_ctx; }
 
@@ -111,6 +116,22 @@ const char *vp_out_json(void) {
 }
 long vp_out_count(void) { return ob_items; }
 
+/* the per-request part of the port's state, moved out and back in around a nested request */
+void vp_save(vp_saved *sv) {
+    sv->cur = vp_cur; sv->ob = ob; sv->ob_len = ob_len; sv->ob_cap = ob_cap; sv->ob_items = ob_items;
+    memcpy(sv->txs, vp_txs, sizeof vp_txs); sv->ntx = vp_ntx;
+    sv->alloc_seq = vp_alloc_seq; sv->send_seq = vp_send_seq; sv->fired = vp_faults_fired; sv->gfailed = vp_getters_failed;
+    ob = NULL; ob_len = ob_cap = 0; ob_items = 0;
+    memset(vp_txs, 0, sizeof vp_txs); vp_ntx = 0;
+}
+void vp_restore(const vp_saved *sv) {
+    for (int i = 0; i < vp_ntx; i++) free(vp_txs[i].b);
+    free(ob);
+    vp_cur = sv->cur; ob = sv->ob; ob_len = sv->ob_len; ob_cap = sv->ob_cap; ob_items = sv->ob_items;
+    memcpy(vp_txs, sv->txs, sizeof vp_txs); vp_ntx = sv->ntx;
+    vp_alloc_seq = sv->alloc_seq; vp_send_seq = sv->send_seq; vp_faults_fired = sv->fired; vp_getters_failed = sv->gfailed;
+}
+
 void vp_json_bytes(FILE *f, const uint8_t *b, size_t n) {
     fputc('[', f);
     for (size_t i = 0; i < n; i++) {
@@ -134,10 +155,11 @@ static int getter_fails(int g) {
 }
 
 /* ---------- the port API ---------- */
-uint64_t lltd_port_monotonic_seconds(void) { return vp_now_ms / 1000ULL; }
-uint64_t lltd_port_monotonic_milliseconds(void) { return vp_now_ms; }
+uint64_t lltd_port_monotonic_seconds(void) { VP_HOOK(); return vp_now_ms / 1000ULL; }
+uint64_t lltd_port_monotonic_milliseconds(void) { VP_HOOK(); return vp_now_ms; }
 
 void *lltd_port_malloc(size_t size) {
+    VP_HOOK();
     if (vp_thread_mode) {
         void *q = malloc(size ? size : 1);
         if (q) memset(q, 0xA5, size);
@@ -163,6 +185,7 @@ void *lltd_port_malloc(size_t size) {
 }
 
 void lltd_port_free(void *ptr) {
+    VP_HOOK();
     if (!ptr) return;
     if (vp_thread_mode) { free(ptr); return; }
     lt_ent *e = lt_get(ptr);
@@ -184,6 +207,7 @@ void *lltd_port_memcpy(void *d, const void *s, size_t num) { return memcpy(d, s,
 int lltd_port_memcmp(const void *a, const void *b, size_t num) { return memcmp(a, b, num); }
 
 void lltd_port_sleep_ms(uint32_t ms) {
+    VP_HOOK();
     if (vp_thread_mode) return;
     char tmp[64];
     /* logged 31-bit safe (TLC integers); the clock still advances by the real value */
@@ -194,6 +218,7 @@ void lltd_port_sleep_ms(uint32_t ms) {
 }
 
 int lltd_port_send_frame(void *iface_ctx, const void *frame, size_t frame_len) {
+    VP_HOOK();
     vif *v = (vif *)iface_ctx;
     int rc = 0;
     if (vp_thread_mode) {
@@ -236,6 +261,7 @@ int lltd_port_send_frame(void *iface_ctx, const void *frame, size_t frame_len) {
 }
 
 int lltd_port_get_mtu(void *iface_ctx, size_t *out_mtu) {
+    VP_HOOK();
     vif *v = (vif *)iface_ctx;
     if (!v || !out_mtu || getter_fails(VG_MTU)) return -1;
     *out_mtu = v->mtu;
@@ -252,18 +278,21 @@ static int make_data(void **out_data, size_t *out_size, size_t size, int salt) {
 }
 
 int lltd_port_get_icon_image(void **out_data, size_t *out_size) {
+    VP_HOOK();
     if (!out_data || !out_size) return -1;
     if (!vp_cfg.icon_present || getter_fails(VG_ICON)) { *out_data = NULL; *out_size = 0; return -1; }
     return make_data(out_data, out_size, vp_cfg.icon_size, vp_cfg.icon_salt);
 }
 
 int lltd_port_get_friendly_name(void **out_data, size_t *out_size) {
+    VP_HOOK();
     if (!out_data || !out_size) return -1;
     if (!vp_cfg.name_present || getter_fails(VG_NAME)) { *out_data = NULL; *out_size = 0; return -1; }
     return make_data(out_data, out_size, vp_cfg.name_size, vp_cfg.name_salt);
 }
 
 size_t lltd_port_get_hostname(void *dst, size_t dst_len) {
+    VP_HOOK();
     if (!dst || dst_len == 0 || getter_fails(VG_HOSTNAME)) return 0;
     size_t n = vp_cfg.hostname_len;
     if (n > dst_len) n = dst_len;
@@ -272,6 +301,7 @@ size_t lltd_port_get_hostname(void *dst, size_t dst_len) {
 }
 
 size_t lltd_port_get_support_url(void *dst, size_t dst_len) {
+    VP_HOOK();
     static const char url[] = "https://example.invalid/support";
     if (!dst || dst_len == 0) return 0;
     size_t n = sizeof(url) - 1;
@@ -281,12 +311,14 @@ size_t lltd_port_get_support_url(void *dst, size_t dst_len) {
 }
 
 int lltd_port_get_upnp_uuid(uint8_t out_uuid[16]) {
+    VP_HOOK();
     if (!vp_cfg.uuid_present || getter_fails(VG_UUID)) return -1;
     memcpy(out_uuid, vp_cfg.uuid, 16);
     return 0;
 }
 
 size_t lltd_port_get_hw_id(void *dst, size_t dst_len) {
+    VP_HOOK();
     if (!dst || dst_len == 0 || getter_fails(VG_HWID)) return 0;
     size_t n = vp_cfg.hwid_len;
     if (n > dst_len) n = dst_len;
@@ -295,6 +327,7 @@ size_t lltd_port_get_hw_id(void *dst, size_t dst_len) {
 }
 
 int lltd_port_get_mac_address(void *iface_ctx, ethernet_address_t *out_mac) {
+    VP_HOOK();
     vif *v = (vif *)iface_ctx;
     if (!v || !out_mac || getter_fails(VG_MAC)) return -1;
     memcpy(out_mac->a, v->mac, 6);
@@ -302,11 +335,13 @@ int lltd_port_get_mac_address(void *iface_ctx, ethernet_address_t *out_mac) {
 }
 
 uint32_t lltd_port_get_characteristics_flags(void *iface_ctx) {
+    VP_HOOK();
     vif *v = (vif *)iface_ctx;
     return v ? v->flags : 0;
 }
 
 int lltd_port_get_if_type(void *iface_ctx, uint32_t *out) {
+    VP_HOOK();
     vif *v = (vif *)iface_ctx;
     if (!v || !out || getter_fails(VG_IFTYPE)) return -1;
     *out = v->iftype;
@@ -314,6 +349,7 @@ int lltd_port_get_if_type(void *iface_ctx, uint32_t *out) {
 }
 
 int lltd_port_get_ipv4_address(void *iface_ctx, uint32_t *out) {
+    VP_HOOK();
     vif *v = (vif *)iface_ctx;
     if (!v || !out || getter_fails(VG_IPV4)) return -1;
     memcpy(out, v->ipv4, 4);
@@ -321,6 +357,7 @@ int lltd_port_get_ipv4_address(void *iface_ctx, uint32_t *out) {
 }
 
 int lltd_port_get_ipv6_address(void *iface_ctx, uint8_t out[16]) {
+    VP_HOOK();
     vif *v = (vif *)iface_ctx;
     if (!v || !out || getter_fails(VG_IPV6)) return -1;
     memcpy(out, v->ipv6, 16);
@@ -328,6 +365,7 @@ int lltd_port_get_ipv6_address(void *iface_ctx, uint8_t out[16]) {
 }
 
 int lltd_port_get_link_speed_100bps(void *iface_ctx, uint32_t *out) {
+    VP_HOOK();
     vif *v = (vif *)iface_ctx;
     if (!v || !out || getter_fails(VG_SPEED)) return -1;
     *out = v->speed;
@@ -335,6 +373,7 @@ int lltd_port_get_link_speed_100bps(void *iface_ctx, uint32_t *out) {
 }
 
 int lltd_port_get_wifi_mode(void *iface_ctx, uint8_t *out) {
+    VP_HOOK();
     vif *v = (vif *)iface_ctx;
     if (!v || !out || !v->wifi) return -1;
     if (getter_fails(VG_WMODE)) return -1;
@@ -343,6 +382,7 @@ int lltd_port_get_wifi_mode(void *iface_ctx, uint8_t *out) {
 }
 
 int lltd_port_get_bssid(void *iface_ctx, uint8_t out[6]) {
+    VP_HOOK();
     vif *v = (vif *)iface_ctx;
     if (!v || !out || !v->wifi || getter_fails(VG_BSSID)) return -1;
     memcpy(out, v->bssid, 6);
@@ -350,6 +390,7 @@ int lltd_port_get_bssid(void *iface_ctx, uint8_t out[6]) {
 }
 
 size_t lltd_port_get_ssid(void *iface_ctx, void *dst, size_t dst_len) {
+    VP_HOOK();
     vif *v = (vif *)iface_ctx;
     if (!v || !dst || !v->wifi || getter_fails(VG_SSID)) return 0;
     size_t n = v->ssid_len;
@@ -359,6 +400,7 @@ size_t lltd_port_get_ssid(void *iface_ctx, void *dst, size_t dst_len) {
 }
 
 int lltd_port_get_wifi_max_rate_0_5mbps(void *iface_ctx, uint16_t *out) {
+    VP_HOOK();
     vif *v = (vif *)iface_ctx;
     if (!v || !out || !v->wifi || getter_fails(VG_RATE)) return -1;
     *out = v->rate;
@@ -366,6 +408,7 @@ int lltd_port_get_wifi_max_rate_0_5mbps(void *iface_ctx, uint16_t *out) {
 }
 
 int lltd_port_get_wifi_rssi_dbm(void *iface_ctx, int8_t *out) {
+    VP_HOOK();
     vif *v = (vif *)iface_ctx;
     if (!v || !out || !v->wifi || getter_fails(VG_RSSI)) return -1;
     *out = v->rssi;
@@ -373,6 +416,7 @@ int lltd_port_get_wifi_rssi_dbm(void *iface_ctx, int8_t *out) {
 }
 
 int lltd_port_get_wifi_phy_medium(void *iface_ctx, uint32_t *out) {
+    VP_HOOK();
     vif *v = (vif *)iface_ctx;
     if (!v || !out || !v->wifi || getter_fails(VG_PHY)) return -1;
     *out = v->phy;
